@@ -18,7 +18,10 @@ RULE = ('case = (repeatRetries, kill-after-producers-done-delay, check-producer-
         'x position k of the environment event, k ranging over EVERY choice point of the run up to the time window (scheduling '
         'points of the monitor thread, rx activities, task exits, timer ticks, and every source line of EngineTaskController and '
         'schedule_next_instance). The rest of each execution follows the canonical fair schedule to completion. '
-        'distinct = distinct (case, k); non-trivial = the event landed while the engine was alive.')
+        'Part B: observers inside the real controller stage loop (same-stage / cross-stage / two subjects in both listing orders / '
+        'mixed; producers that write output at launch+exit or only at exit; long and short producers), canonical schedule and all '
+        '1-deviation schedules for the two-subject observer, judged from the event log (no launch before every same-stage producer '
+        'has output, final output observed). distinct = distinct (case, k); non-trivial = the event landed while the engine was alive.')
 ASSUMPTIONS = [
     'controlled-runtime assumptions of C01; producer output is a virtual log consulted through WorkingDirectory.output*',
     'the notification is delivered by calling RepeatingEngine.notify_all_producers_finished() (what ComponentState._notifyProducersFinished '
